@@ -12,6 +12,8 @@ collect/dedup   fields are de-duplicated through Term.__hash__ (rendering under 
 collect/nodes   nodes_() traverses every slot the class renders (slots derived from the real get_sql)."""
 from __future__ import annotations
 
+import re
+
 import z3
 
 from ..driver import run_function, tags
@@ -137,7 +139,8 @@ def check_dedup(_item):
     keeps one field per hash key (== on terms is always truthy), so the key must determine (table, name)"""
     r = repo()
     ci = r.cls("terms.Field")
-    hrun = run_function(r.func("terms.Term.__hash__"), ci, inline_self=True)
+    hfi = ci.resolve("__hash__")[1]
+    hrun = run_function(hfi, ci, inline_self=True)
     if hrun.error:
         return [Obligation(PROP, "terms.Field|collect/dedup", "collect/dedup", "terms.Term.__hash__", UNSUPPORTED,
                            reason=hrun.error)]
@@ -149,6 +152,8 @@ def check_dedup(_item):
         if o.status != "return":
             continue
         txt = repr(o.value) + " ".join(repr(e.recv) + repr(e.args) for e in o.state.effects)
+        if re.search(r"hash!\(([^()]*,)?self\.name,self\.table(,[^()]*)?\)", txt) and not o.state.effects:
+            continue        # the key is a tuple containing the name and the table (hashed by Table.__hash__, eq/hash)
         pcc = o.state.pc + [z3.Not(tbl_none)]
         if ex.smt.feasible(pcc):
             alias_truthy = ex.smt.truthy("self.table.alias", ex.tags.of_spec("name|None"))
@@ -156,7 +161,7 @@ def check_dedup(_item):
                 ok = False
                 why = ("for a field of an un-aliased table the hash key is the quoted column name only (the table is "
                        "printed only when it has an alias): t.x and u.x collapse into one element of fields_()")
-    return [Obligation(PROP, "terms.Field|collect/dedup", "collect/dedup", "terms.Term.__hash__",
+    return [Obligation(PROP, "terms.Field|collect/dedup", "collect/dedup", hfi.short,
                        PROVED if ok else REFUTED,
                        detail="the hash key of a Field determines its (table, name)", reason=why,
                        witness={"family": "call", "oracle": "fields_dedup", "args": []})]
